@@ -456,6 +456,10 @@ export class SchemaPrintingContext {
     this.inProgressDefinitions[name] = true;
   }
 
+  clearDefinitionInProgress(name: string): void {
+    delete this.inProgressDefinitions[name];
+  }
+
   storeDefinition(name: string, schema: JSONSchema7Definition): void {
     this.collectedDefinitions[name] = schema;
     delete this.inProgressDefinitions[name];
@@ -1843,8 +1847,13 @@ export class AnyOfDiscriminatedRuntype extends BaseRuntype {
       return;
     }
     printingContext.markDefinitionInProgress(name);
-    const body = target.schema(ctx);
-    printingContext.storeDefinition(name, body);
+    try {
+      const body = target.schema(ctx);
+      printingContext.storeDefinition(name, body);
+    } finally {
+      // if printing the body threw, the name must not stay "in progress" for later calls
+      printingContext.clearDefinitionInProgress(name);
+    }
   }
 
   private ensureSchemaVariantRef(
@@ -2361,9 +2370,14 @@ export abstract class BaseRefRuntype extends BaseRuntype {
       }
       if (!printingContext.hasDefinition(name) && !printingContext.isDefinitionInProgress(name)) {
         printingContext.markDefinitionInProgress(name);
-        const schemaTarget = printingContext.getNamedTypeSchemaOverride(name) ?? to;
-        const body = schemaTarget.schema(ctx);
-        printingContext.storeDefinition(name, body);
+        try {
+          const schemaTarget = printingContext.getNamedTypeSchemaOverride(name) ?? to;
+          const body = schemaTarget.schema(ctx);
+          printingContext.storeDefinition(name, body);
+        } finally {
+          // if printing the body threw, the name must not stay "in progress" for later calls
+          printingContext.clearDefinitionInProgress(name);
+        }
       }
       return annotateSchema(this.metadata, { $ref: printingContext.getRef(name) });
     }
